@@ -868,6 +868,14 @@ func report(s *core.Shard, vs []verdict, m model, c ld.Case) {
 }
 
 func replay(s *core.Shard, dir string) {
+	var wrap struct {
+		Interaction *interCase `json:"interaction"`
+	}
+	if err := core.ReadJSON(filepath.Join(dir, "case.json"), &wrap); err == nil && wrap.Interaction != nil {
+		s.Begin("replay")
+		judgeInter(s, *wrap.Interaction, nil)
+		return
+	}
 	var m model
 	if err := core.ReadJSON(filepath.Join(dir, "case.json"), &m); err != nil {
 		s.Inconclusive("replay: " + err.Error())
@@ -880,6 +888,7 @@ func replay(s *core.Shard, dir string) {
 
 func run(s *core.Shard) {
 	n := s.Pick(4000, 25000)
+	runInteractions(s, n)
 	base := s.Rand("models").Uint64()
 	for i := 0; i < n; i++ {
 		if !s.Mine(i) {
